@@ -202,7 +202,7 @@ MUTANTS = [
          old="if obstacle.prediction is not None and obstacle.prediction.shape_lanelet_assignment is not None:", new="if False:", only="dynamic.trajectory"),
     dict(name="add-static-uses-centre-ids", target=_S + "add_objects",
          old="scenario_object.obstacle_id, scenario_object.initial_shape_lanelet_ids", new="scenario_object.obstacle_id, scenario_object.initial_center_lanelet_ids",
-         only="program"),
+         only="program.k3.static", tier="thorough"),
     dict(name="time-step-off-by-one", target=_S + "assign_obstacles_to_lanelets",
          old="range(obs.initial_state.time_step, obs.prediction.final_time_step + 1)", new="range(obs.initial_state.time_step, obs.prediction.final_time_step)",
          only="dynamic.trajectory"),
